@@ -1147,8 +1147,8 @@ func (w *walker) deref(t *Term) *Loc {
 
 // FieldNames, when set, returns the recorded field names of a named module
 // struct type ("rel.Type"): a renamed unexported field is the same field
-// (fields are identified by position; the alias applies while the number of
-// fields is unchanged).
+// (fields keep their identity by name, renamed ones by position among the
+// renamed; the alias applies while the number of fields is unchanged).
 var FieldNames func(typeKey string) []string
 
 func fieldName(t types.Type, idx int) string {
@@ -1158,7 +1158,7 @@ func fieldName(t types.Type, idx int) string {
 	if st, ok := t.Underlying().(*types.Struct); ok && idx < st.NumFields() {
 		if n, ok := t.(*types.Named); ok && FieldNames != nil && n.Obj().Pkg() != nil {
 			if rec := FieldNames(load.Rel(n.Obj().Pkg()) + "." + n.Obj().Name()); len(rec) == st.NumFields() {
-				return rec[idx]
+				return load.AliasFieldNames(rec, st)[idx]
 			}
 		}
 		return st.Field(idx).Name()
